@@ -68,6 +68,9 @@ PROBES = [
     ("tilde-path", [("p.mac", ".include \"~tilde\"\n.word tilde\ninsert_file \"~tilde\"\nmake_raw \"~outt\"\n")]),
     # compound branch operands whose first number is a local label, for every kind of branch: the same reading every time
     ("sob-fixup", [("p.mac", "1: nop\n sob r0, 1 + 2\n2: bne 2+2\n nop\n sob r3, 2+4\n br 1+2\n")]),
+    # definitions where none may stand: reported every time, whatever objects of earlier runs have come and gone
+    ("label-in-repeat", [("p.mac", ".repeat 2 { lq: nop }\n")]),
+    ("defs-in-repeat", [("p.mac", " nop\n.repeat 3 {\n xq = 5\n 7$: nop\n}\n.repeat 1 { yq: .word 1 }\n")]),
     ("sob-plain", [("p.mac", "lp: nop\n sob r0, lp\n sob r1, .\n sob r2, lp + 2\n7: sob r4, 7\n")]),
     ("tilde-output", [("p.mac", "make_raw \"~outt\"\nmake_bin \"~Outb\"\n nop\n")]),
     ("tape-names", [("p.mac", "make_wav \"a.wav\", \"FIRST\"\nmake_wav \"b.wav\", \"SECOND\"\nmake_turbo_wav \"c.wav\", \"\"\nmake_wav \"d.wav\"\n .word 1, 2\n")]),
@@ -94,6 +97,7 @@ CRASHERS = [
     "p = q\nq = p\n",                           # never terminates
 ]
 FAILERS = [
+    ".repeat 2 { a1: nop }\n", ".repeat 3 { k1 = 1 }\n", " nop\n.repeat 2 { b2: .word 1 }\n.repeat 2 { c3: nop }\n",
     "mov nosuch, r0\n", ".word 19\n", ".byte 400\n", "br .+1000\n", ".ascii \"abc\n", "lab: nop\nlab: nop\n", "mov , r0\n",
     ".word (1+2\n", ".error boom\n", "insert_file \"nosuch.bin\"\n", ".repeat 2 { l: nop }\n", ".link 1000\n.link 2000\n",
     "r0: nop\n", ".extern 5\n", "clrf r6\n", ".word 1<<k\nk=0-1\n",
@@ -279,7 +283,11 @@ def run_history(history, probes, root):
     leaks = []
     aborted = False
     hist_sig = []
+    import gc
+    o = None
     for kind, files in history:
+        o = None
+        gc.collect()        # (the collector may run at any moment: objects of the earlier assemblies go, their addresses are taken again)
         o = assemble_files(files, root, bare=kind.startswith("bare:"))
         if o.cls == "ok" and o.emitted:
             observable(o, root)          # run the container encoders as a real run would
@@ -299,6 +307,8 @@ def run_history(history, probes, root):
     obs = []
     for name in probes:
         files = dict(PROBES)[name]
+        o = None
+        gc.collect()
         o = assemble_files(files, root)
         obs.append([name, observable(o, root), o.leaks])
         if o.leaks and not aborted:
@@ -365,6 +375,11 @@ def run_shard(spec):
         for i in range(spec["count"]):
             history = gen_history(rnd, maxlen, root)
             probes = rnd.sample([p[0] for p in PROBES], rnd.randrange(2, 6))
+            if rnd.random() < 0.3:
+                # the probe's own text several times in a row just before it (objects of the earlier runs are freed and their places
+                # taken again by the same allocation pattern)
+                pn = rnd.choice(probes)
+                history += [["probe:" + pn, [list(x) for x in dict(PROBES)[pn]]] for _ in range(rnd.randrange(3, 9))]
             if rnd.random() < 0.6:
                 # near misses of the probes themselves, late in the history
                 for pn in rnd.sample(probes, rnd.randrange(1, min(3, len(probes)) + 1)):
